@@ -185,6 +185,9 @@ func RunSeq(sc SeqScenario, o SeqOpts) *SeqResult {
 			all = append(all, s)
 		}
 		op.Opaque = uint32(0x1000 + 16*len(s.Ops))
+		if i%3 == 2 {
+			op.Opaque |= 0xfffe0000 // opaques are the client's to choose: high bits set, too
+		}
 		m.Now = uint32(time.Now().Unix())
 		var e Expect
 		if !o.NoModel {
@@ -314,7 +317,9 @@ type BFSOpts struct {
 	Shard  bool
 	Item   int
 	Bubble bool
-	Seq    SeqOpts
+	// Fresh: every command of every history arrives on a connection of its own
+	Fresh bool
+	Seq   SeqOpts
 	// OnExec sees every executed history (after the oracle ran).
 	OnExec func(sc SeqScenario, r *SeqResult)
 }
@@ -340,7 +345,7 @@ func BFS(c *rt.Ctx, harness string, cfg Cfg, alphabet []wire.Op, bo BFSOpts) (st
 		}
 		return r
 	}
-	root := run(SeqScenario{Harness: harness, Cfg: cfg})
+	root := run(SeqScenario{Harness: harness, Cfg: cfg, Fresh: bo.Fresh})
 	seen := map[string]bool{root.StateKey: true}
 	type fnode struct {
 		ops []wire.Op
@@ -367,7 +372,7 @@ func BFS(c *rt.Ctx, harness string, cfg Cfg, alphabet []wire.Op, bo BFSOpts) (st
 					continue
 				}
 				ops := append(append([]wire.Op{}, hist...), ev)
-				sc := SeqScenario{Harness: harness, Cfg: cfg, Ops: ops}
+				sc := SeqScenario{Harness: harness, Cfg: cfg, Ops: ops, Fresh: bo.Fresh}
 				r := run(sc)
 				if mine {
 					trans++
